@@ -734,4 +734,378 @@ theorem faceMatch_c (P : Mat) (nNew : Nat) (old new : List FaceRec) (s : Scaling
   simp only [add_c, sideOrZero_c]
 
 
+
+/-! ### `_init_projections`: sorting, side order -/
+
+
+theorem insertBySec_perm (t : Ent) : ∀ l : List Ent, (insertBySec t l).Perm (t :: l)
+  | [] => List.Perm.refl _
+  | a :: l => by
+    unfold insertBySec
+    split
+    · exact List.Perm.refl _
+    · exact ((insertBySec_perm t l).cons a).trans (List.Perm.swap t a l)
+
+theorem sortBySec_perm : ∀ l : List Ent, (sortBySec l).Perm l
+  | [] => List.Perm.refl _
+  | t :: l => (insertBySec_perm t (sortBySec l)).trans ((sortBySec_perm l).cons t)
+
+theorem evens_odds_perm {α : Type} : ∀ l : List α, (evens l ++ odds l).Perm l
+  | [] => List.Perm.refl _
+  | [a] => List.Perm.refl _
+  | a :: b :: l => by
+    simp only [evens, odds, List.cons_append]
+    exact (List.perm_middle.cons a).trans (((evens_odds_perm l).cons b).cons a)
+
+theorem filter_split_perm {α : Type} (p : α → Bool) : ∀ l : List α,
+    (l.filter (fun t => !p t) ++ l.filter p).Perm l
+  | [] => List.Perm.refl _
+  | a :: l => by
+    cases h : p a
+    · simp only [List.filter_cons, h, Bool.not_false, if_true, List.cons_append]
+      simpa using (filter_split_perm p l).cons a
+    · simp only [List.filter_cons, h, Bool.not_true]
+      simpa using List.perm_middle.trans ((filter_split_perm p l).cons a)
+
+/-- sorted by the secondary index -/
+def SortedSec : List Ent → Prop
+  | a :: b :: t => a.1 ≤ b.1 ∧ SortedSec (b :: t)
+  | _ => True
+
+theorem sortedSec_tail {a : Ent} {l : List Ent} (h : SortedSec (a :: l)) : SortedSec l := by
+  cases l with
+  | nil => trivial
+  | cons b t => exact h.2
+
+theorem insertBySec_sorted (t : Ent) : ∀ l : List Ent, SortedSec l → SortedSec (insertBySec t l)
+  | [], _ => trivial
+  | a :: l, h => by
+    unfold insertBySec
+    split
+    · rename_i hle; exact ⟨hle, h⟩
+    · rename_i hle
+      have hat : a.1 ≤ t.1 := by omega
+      have ih := insertBySec_sorted t l (sortedSec_tail h)
+      cases l with
+      | nil => exact ⟨hat, trivial⟩
+      | cons b l' =>
+        unfold insertBySec at ih ⊢
+        split
+        · exact ⟨hat, by rename_i h2; exact ⟨h2, h.2⟩⟩
+        · rename_i h2
+          rw [if_neg h2] at ih
+          exact ⟨h.1, ih⟩
+
+theorem sortBySec_sorted : ∀ l : List Ent, SortedSec (sortBySec l)
+  | [] => trivial
+  | t :: l => insertBySec_sorted t _ (sortBySec_sorted l)
+
+
+/-- `[a, a, a+1, a+1, …]` (`k` pairs) -/
+def dblFrom : Nat → Nat → List Nat
+  | _, 0 => []
+  | a, k + 1 => a :: a :: dblFrom (a + 1) k
+
+def SortedN : List Nat → Prop
+  | a :: b :: t => a ≤ b ∧ SortedN (b :: t)
+  | _ => True
+
+theorem sortedN_tail {a : Nat} {l : List Nat} (h : SortedN (a :: l)) : SortedN l := by
+  cases l with
+  | nil => trivial
+  | cons b t => exact h.2
+
+theorem sortedN_head_le : ∀ (l : List Nat) (a : Nat), SortedN (a :: l) → ∀ x ∈ l, a ≤ x
+  | [], _, _, x, hx => by cases hx
+  | b :: t, a, h, x, hx => by
+    rcases List.mem_cons.mp hx with rfl | hx
+    · exact h.1
+    · exact Nat.le_trans h.1 (sortedN_head_le t b h.2 x hx)
+
+theorem dbl_char : ∀ (k a : Nat) (ks : List Nat), SortedN ks → (∀ x ∈ ks, a ≤ x ∧ x < a + k) →
+    (∀ c, a ≤ c → c < a + k → ks.count c = 2) → ks = dblFrom a k
+  | 0, a, ks, _, hb, _ => by
+    cases ks with
+    | nil => rfl
+    | cons x t => have := hb x (List.mem_cons_self); omega
+  | k + 1, a, ks, hs, hb, hc => by
+    have hca := hc a (Nat.le_refl a) (by omega)
+    cases ks with
+    | nil => simp at hca
+    | cons x ks' =>
+      have hx : x = a := by
+        have hxa := (hb x (List.mem_cons_self)).1
+        by_cases e : x = a
+        · exact e
+        · have : a ∈ ks' := by
+            have : 0 < (x :: ks').count a := by omega
+            rcases List.mem_cons.mp (List.count_pos_iff.mp this) with h | h
+            · exact absurd h.symm e
+            · exact h
+          have := sortedN_head_le ks' x hs a this
+          omega
+      subst hx
+      have hca' : ks'.count x = 1 := by simpa [List.count_cons] using hca
+      cases ks' with
+      | nil => simp at hca'
+      | cons y ks'' =>
+        have hy : y = x := by
+          have hyx := (hb y (List.mem_cons_of_mem _ List.mem_cons_self)).1
+          by_cases e : y = x
+          · exact e
+          · have : x ∈ ks'' := by
+              have : 0 < (y :: ks'').count x := by omega
+              rcases List.mem_cons.mp (List.count_pos_iff.mp this) with h | h
+              · exact absurd h.symm e
+              · exact h
+            have := sortedN_head_le ks'' y (sortedN_tail hs) x this
+            omega
+        subst hy
+        have hc0 : ks''.count y = 0 := by simpa [List.count_cons] using hca'
+        have hnot : y ∉ ks'' := List.count_eq_zero.mp hc0
+        simp only [dblFrom]
+        congr 2
+        apply dbl_char k (y + 1) ks'' (sortedN_tail (sortedN_tail hs))
+        · intro z hz
+          have hb' := hb z (List.mem_cons_of_mem _ (List.mem_cons_of_mem _ hz))
+          have : z ≠ y := fun e => hnot (e ▸ hz)
+          omega
+        · intro c h1 h2
+          have := hc c (by omega) (by omega)
+          have hne : ¬ y = c := by omega
+          simpa [List.count_cons, hne] using this
+
+theorem evens_dblFrom : ∀ (k a : Nat), evens (dblFrom a k) = List.range' a k
+  | 0, _ => rfl
+  | k + 1, a => by simp only [dblFrom, evens, evens_dblFrom k (a + 1), List.range'_succ]
+
+theorem odds_dblFrom : ∀ (k a : Nat), odds (dblFrom a k) = List.range' a k
+  | 0, _ => rfl
+  | k + 1, a => by simp only [dblFrom, odds, odds_dblFrom k (a + 1), List.range'_succ]
+
+theorem evens_map {α β : Type} (f : α → β) : ∀ l : List α, (evens l).map f = evens (l.map f)
+  | [] => rfl
+  | [_] => rfl
+  | a :: b :: l => by simp only [evens, List.map_cons, evens_map f l]
+
+theorem odds_map {α β : Type} (f : α → β) : ∀ l : List α, (odds l).map f = odds (l.map f)
+  | [] => rfl
+  | [_] => rfl
+  | a :: b :: l => by simp only [odds, List.map_cons, odds_map f l]
+
+
+
+theorem sortedSec_keys : ∀ l : List Ent, SortedSec l → SortedN (l.map (·.1))
+  | [], _ => trivial
+  | [_], _ => trivial
+  | _ :: b :: t, h => ⟨h.1, sortedSec_keys (b :: t) h.2⟩
+
+theorem countSec_eq_count (c : Nat) : ∀ l : List Ent, countSec c l = (l.map (·.1)).count c
+  | [] => rfl
+  | t :: l => by
+    have ih := countSec_eq_count c l
+    unfold countSec at ih ⊢
+    by_cases h : t.1 = c
+    · simp [h, ih]
+    · simp [h, ih]
+
+theorem countSec_perm (c : Nat) {l l' : List Ent} (h : l.Perm l') : countSec c l = countSec c l' := by
+  unfold countSec
+  exact (h.filter _).length_eq
+
+theorem foldl_max_facts : ∀ (l : List Ent) (m : Nat),
+    m ≤ l.foldl (fun m t => if m < t.1 then t.1 else m) m ∧
+    (∀ t ∈ l, t.1 ≤ l.foldl (fun m t => if m < t.1 then t.1 else m) m) ∧
+    (l.foldl (fun m t => if m < t.1 then t.1 else m) m = m ∨
+      ∃ t ∈ l, t.1 = l.foldl (fun m t => if m < t.1 then t.1 else m) m)
+  | [], m => by
+    refine ⟨Nat.le_refl m, ?_, Or.inl rfl⟩
+    intro t ht; cases ht
+  | a :: l, m => by
+    simp only [List.foldl_cons]
+    by_cases hm : m < a.1
+    · simp only [if_pos hm]
+      obtain ⟨h1, h2, h3⟩ := foldl_max_facts l a.1
+      refine ⟨by omega, ?_, ?_⟩
+      · intro t ht
+        rcases List.mem_cons.mp ht with rfl | ht
+        · exact h1
+        · exact h2 t ht
+      · rcases h3 with h3 | ⟨t, ht, e⟩
+        · right; exact ⟨a, List.mem_cons_self, h3.symm⟩
+        · right; exact ⟨t, List.mem_cons_of_mem _ ht, e⟩
+    · simp only [if_neg hm]
+      obtain ⟨h1, h2, h3⟩ := foldl_max_facts l m
+      refine ⟨h1, ?_, ?_⟩
+      · intro t ht
+        rcases List.mem_cons.mp ht with rfl | ht
+        · omega
+        · exact h2 t ht
+      · rcases h3 with h3 | ⟨t, ht, e⟩
+        · left; exact h3
+        · right; exact ⟨t, List.mem_cons_of_mem _ ht, e⟩
+
+theorem le_maxSecOf (l : List Ent) : ∀ t ∈ l, t.1 ≤ maxSecOf l := (foldl_max_facts l 0).2.1
+
+theorem maxSecOf_attained (l : List Ent) : maxSecOf l = 0 ∨ ∃ t ∈ l, t.1 = maxSecOf l := (foldl_max_facts l 0).2.2
+
+
+
+theorem initBase_inv (nsides numCells nPrim nSec : Nat) (entries : List Ent) (dup : Option (List Nat)) (P S : Mat)
+    (h : initBase nsides numCells nPrim nSec entries dup = some (P, S)) :
+    countsOk nsides (dupOrder nsides entries dup) = true ∧
+    (sideOrder nsides (sortBySec (dupOrder nsides entries dup))).length = numCells ∧
+    P = pTable numCells nPrim (sideOrder nsides (sortBySec (dupOrder nsides entries dup))) ∧
+    S = sTable numCells nSec (sideOrder nsides (sortBySec (dupOrder nsides entries dup))) := by
+  unfold initBase at h
+  simp only [] at h
+  split at h
+  · cases h
+  · rename_i h1
+    split at h
+    · cases h
+    · rename_i h2
+      simp only [Option.some.injEq, Prod.mk.injEq] at h
+      refine ⟨by simpa using h1, by simpa using h2, h.1.symm, h.2.symm⟩
+
+theorem dupOrder_perm (nsides : Nat) (entries : List Ent) (dup : Option (List Nat)) :
+    (dupOrder nsides entries dup).Perm entries := by
+  unfold dupOrder
+  cases dup with
+  | none => exact List.Perm.refl _
+  | some d =>
+    simp only
+    split
+    · exact filter_split_perm _ entries
+    · exact List.Perm.refl _
+
+theorem sideOrder_perm (nsides : Nat) (l : List Ent) : (sideOrder nsides l).Perm l := by
+  unfold sideOrder
+  split
+  · exact evens_odds_perm l
+  · exact List.Perm.refl _
+
+theorem ordered_perm (nsides : Nat) (entries : List Ent) (dup : Option (List Nat)) :
+    (sideOrder nsides (sortBySec (dupOrder nsides entries dup))).Perm entries :=
+  (sideOrder_perm _ _).trans ((sortBySec_perm _).trans (dupOrder_perm _ _ _))
+
+theorem getD_mem {α : Type} (l : List α) (d : α) (i : Nat) (hi : i < l.length) : l.getD i d ∈ l := by
+  rw [List.getD_eq_getElem?_getD, List.getElem?_eq_getElem hi]
+  exact List.getElem_mem hi
+
+theorem ent_vcat (A B : Mat) (i j : Nat) (hi : i < A.r + B.r) (hj : j < A.c) :
+    (A.vcat B).ent i j = if i < A.r then A.ent i j else B.ent (i - A.r) j := ent_table _ _ _ i j hi hj
+
+theorem two_block_table (n c : Nat) (f : Nat → Nat → Rat) :
+    table (n + n) c f =
+      (table n c f).vcat ((table n c fun i j => f (n + i) j).vcat (table 0 c fun _ _ => 0)) := by
+  show table (n + n) c f = table (n + (n + 0)) c _
+  apply table_congr
+  intro i j hi hj
+  by_cases h : i < n
+  · rw [if_pos (show i < (table n c f).r from h), ent_table _ _ _ i j h hj]
+  · rw [if_neg (show ¬ i < (table n c f).r from h), show i - (table n c f).r = i - n from rfl,
+      ent_vcat _ _ (i - n) j (show i - n < n + 0 by omega) hj,
+      if_pos (show i - n < (table n c fun i j => f (n + i) j).r by show i - n < n; omega),
+      ent_table _ _ _ (i - n) j (by omega) hj]
+    congr 1; omega
+
+
+/-- keys of the sorted two-sided listing are `0,0,1,1,…` -/
+theorem sorted_keys_two (nSec : Nat) (e1 : List Ent) (hsec : ∀ t ∈ e1, t.1 < nSec)
+    (hall : ∀ c, c < nSec → ∃ t ∈ e1, t.1 = c) (hok : countsOk 2 e1 = true) :
+    (sortBySec e1).map (·.1) = dblFrom 0 nSec := by
+  have hcnt : ∀ c, c < maxSecOf e1 + 1 → countSec c e1 = 2 := by
+    intro c hc
+    have := hok
+    unfold countsOk at this
+    simp only [decide_true, Bool.not_true, Bool.false_or, List.all_eq_true, List.mem_range,
+      decide_eq_true_eq] at this
+    exact this c hc
+  have hne : ∃ t, t ∈ e1 := by
+    have h0 := hcnt 0 (by omega)
+    unfold countSec at h0
+    cases hf : e1.filter (fun t => t.1 = 0) with
+    | nil => rw [hf] at h0; simp at h0
+    | cons t _ =>
+      have : t ∈ e1.filter (fun t => t.1 = 0) := by rw [hf]; exact List.mem_cons_self
+      exact ⟨t, (List.mem_filter.mp this).1⟩
+  have hm : maxSecOf e1 + 1 = nSec := by
+    obtain ⟨t0, ht0⟩ := hne
+    have hpos : 0 < nSec := by have := hsec t0 ht0; omega
+    have h1 : maxSecOf e1 < nSec := by
+      rcases maxSecOf_attained e1 with h | ⟨t, ht, e⟩
+      · omega
+      · rw [← e]; exact hsec t ht
+    obtain ⟨t, ht, e⟩ := hall (nSec - 1) (by omega)
+    have := le_maxSecOf e1 t ht
+    omega
+  apply dbl_char nSec 0 _ (sortedSec_keys _ (sortBySec_sorted e1))
+  · intro x hx
+    obtain ⟨t, ht, rfl⟩ := List.mem_map.mp hx
+    have := hsec t ((sortBySec_perm e1).mem_iff.mp ht)
+    omega
+  · intro c _ hc
+    rw [← countSec_eq_count, countSec_perm c (sortBySec_perm e1)]
+    exact hcnt c (by omega)
+
+
+theorem getD_fst_of_map (l : List Ent) (d : Ent) (ks : List Nat) (h : l.map (·.1) = ks) (i : Nat) (hi : i < l.length) :
+    (l.getD i d).1 = ks.getD i 0 := by
+  subst h
+  simp [List.getD_eq_getElem?_getD, hi]
+
+theorem getD_range' (a n i : Nat) (hi : i < n) : (List.range' a n).getD i 0 = a + i := by
+  simp [List.getD_eq_getElem?_getD, hi]
+
+theorem getD_append_left' {α : Type} (l l' : List α) (d : α) (n : Nat) (h : n < l.length) :
+    (l ++ l').getD n d = l.getD n d := by
+  rw [List.getD_eq_getElem?_getD, List.getD_eq_getElem?_getD, List.getElem?_append_left h]
+
+theorem getD_append_right' {α : Type} (l l' : List α) (d : α) (n : Nat) (h : l.length ≤ n) :
+    (l ++ l').getD n d = l'.getD (n - l.length) d := by
+  rw [List.getD_eq_getElem?_getD, List.getD_eq_getElem?_getD, List.getElem?_append_right h]
+
+theorem side_keys (sorted : List Ent) (nSec : Nat) (d : Ent) (hk : sorted.map (·.1) = dblFrom 0 nSec) :
+    (evens sorted).length = nSec ∧ (odds sorted).length = nSec ∧
+    (∀ i, i < nSec → ((evens sorted ++ odds sorted).getD i d).1 = i) ∧
+    (∀ i, i < nSec → ((evens sorted ++ odds sorted).getD (nSec + i) d).1 = i) := by
+  have he : (evens sorted).map (·.1) = List.range' 0 nSec := by rw [evens_map, hk, evens_dblFrom]
+  have ho : (odds sorted).map (·.1) = List.range' 0 nSec := by rw [odds_map, hk, odds_dblFrom]
+  have le : (evens sorted).length = nSec := by simpa using congrArg List.length he
+  have lo : (odds sorted).length = nSec := by simpa using congrArg List.length ho
+  refine ⟨le, lo, ?_, ?_⟩
+  · intro i hi
+    rw [getD_append_left' _ _ _ _ (by omega), getD_fst_of_map _ d _ he i (by omega), getD_range' 0 nSec i hi]
+    omega
+  · intro i hi
+    rw [getD_append_right' _ _ _ _ (by omega), le, Nat.add_sub_cancel_left,
+      getD_fst_of_map _ d _ ho i (by omega), getD_range' 0 nSec i hi]
+    omega
+
+
+theorem getD_inj_of_prim_nodup (l : List Ent) (d : Ent) (h : (l.map (·.2.1)).Nodup) (i k : Nat)
+    (hi : i < l.length) (hk : k < l.length) (e : (l.getD i d).2.1 = (l.getD k d).2.1) : i = k := by
+  have e' : (l.map (·.2.1)).getD i 0 = (l.map (·.2.1)).getD k 0 := by
+    simpa [List.getD_eq_getElem?_getD, hi, hk] using e
+  exact (List.getD_inj (by simpa using hi) (by simpa using hk) h).mp e'
+
+theorem getD_inj_of_sec_nodup (l : List Ent) (d : Ent) (h : (l.map (·.1)).Nodup) (i k : Nat)
+    (hi : i < l.length) (hk : k < l.length) (e : (l.getD i d).1 = (l.getD k d).1) : i = k := by
+  have e' : (l.map (·.1)).getD i 0 = (l.map (·.1)).getD k 0 := by
+    simpa [List.getD_eq_getElem?_getD, hi, hk] using e
+  exact (List.getD_inj (by simpa using hi) (by simpa using hk) h).mp e'
+
+theorem exists_getD_of_mem' {α : Type} (l : List α) (d x : α) (h : x ∈ l) : ∃ a, a < l.length ∧ l.getD a d = x := by
+  obtain ⟨a, ha, e⟩ := List.getElem_of_mem h
+  exact ⟨a, ha, by rw [List.getD_eq_getElem?_getD, List.getElem?_eq_getElem ha]; exact e⟩
+
+theorem one_block_table (n c : Nat) (f : Nat → Nat → Rat) :
+    table n c f = (table n c f).vcat (table 0 c fun _ _ => 0) := by
+  show table n c f = table (n + 0) c _
+  apply table_congr
+  intro i j hi hj
+  rw [if_pos (show i < (table n c f).r from hi), ent_table _ _ _ i j hi hj]
+
+
 end PorepyVerif.C26
